@@ -631,6 +631,8 @@ def run_manager_sequence(steps: list[dict]) -> list[dict]:
 
     def publish(step: dict, k: int) -> dict[str, list[int]]:
         fresh: dict[str, list[int]] = {"bats": [], "invs": []}
+        k = int(step.get("msg_ts", k))  # the time stamp new messages of this step carry (may be equal to / older than before)
+        nan = float("nan")
         for g in step["groups"]:
             for b in g["bats"]:
                 fp = tuple(b[x] for x in ("cap", "soc", "soc_lo", "soc_hi", "il", "el", "eu", "iu"))
@@ -643,14 +645,15 @@ def run_manager_sequence(steps: list[dict]) -> list[dict]:
                         power_inclusion_lower_bound=fl(b["il"]), power_exclusion_lower_bound=fl(b["el"]),
                         power_exclusion_upper_bound=fl(b["eu"]), power_inclusion_upper_bound=fl(b["iu"]))
             for i in g["invs"]:
-                fp = tuple(i[x] for x in ("il", "el", "eu", "iu"))
+                fp = tuple(i[x] for x in ("il", "el", "eu", "iu")) + (bool(i.get("nan_incl")),)
                 if prints.get(("i", i["id"])) != fp:
                     prints[("i", i["id"])] = fp
                     fresh["invs"].append(i["id"])
                     caches[("i", i["id"])] = InverterDataWrapper(
                         component_id=i["id"], timestamp=TS + timedelta(seconds=k),
-                        active_power_inclusion_lower_bound=fl(i["il"]), active_power_exclusion_lower_bound=fl(i["el"]),
-                        active_power_exclusion_upper_bound=fl(i["eu"]), active_power_inclusion_upper_bound=fl(i["iu"]))
+                        active_power_inclusion_lower_bound=nan if i.get("nan_incl") else fl(i["il"]),
+                        active_power_exclusion_lower_bound=fl(i["el"]), active_power_exclusion_upper_bound=fl(i["eu"]),
+                        active_power_inclusion_upper_bound=nan if i.get("nan_incl") else fl(i["iu"]))
         return fresh
 
     async def one(mgr: Any, sent: list, step: dict) -> dict:
@@ -681,6 +684,23 @@ def run_manager_sequence(steps: list[dict]) -> list[dict]:
     return asyncio.run(go())
 
 
+def gen_manager_sequence(rng: random.Random) -> list[dict]:
+    """`gen_sequence`, plus what only a manager sees: new messages whose time stamp is NOT newer than the previous ones
+    (equal or older, `msg_ts`) although their content changed, and an inverter (any position in its set) whose latest message
+    has NaN inclusion bounds (`nan_incl`) for one request."""
+    import copy
+
+    steps = [copy.deepcopy(_strip_history(s)) for s in gen_sequence(rng)]
+    for k in range(1, len(steps)):
+        if rng.random() < 0.35:
+            steps[k]["msg_ts"] = rng.choice([0, k - 1, k - 1, -5])
+        if rng.random() < 0.25:
+            multi = [g for g in steps[k]["groups"] if len(g["invs"]) > 1]
+            g = rng.choice(multi) if multi and rng.random() < 0.8 else rng.choice(steps[k]["groups"])
+            rng.choice(g["invs"])["nan_incl"] = True
+    return steps
+
+
 def process_manager_sequence(ctx: Any, prop: str, steps: list[dict]) -> None:
     """C02 per request of a sequence through one manager, against the LATEST component data: the set-points the long-lived
     manager commands satisfy the clauses for the data of that step, and are the ones a fresh manager commands."""
@@ -697,16 +717,34 @@ def process_manager_sequence(ctx: Any, prop: str, steps: list[dict]) -> None:
             "battery-only" if not nm["invs"] else "both"))
         tags = [f"mgrseq:step{min(k, 3)}", f"mgrseq:new-{mode}", "mgrseq:" + a["kind"]]
         where = {"manager_sequence": plain[:k + 1], "step": k}
-        if a != b:
+        nan_groups = [g for g in step["groups"] if any(i.get("nan_incl") for i in g["invs"])]
+        nan_ids = {i["id"] for g in nan_groups for i in g["invs"]}
+        if nan_groups:
+            tags.append("mgrseq:nan-inverter-bounds")
+        if step.get("msg_ts") is not None and k and int(step["msg_ts"]) < k:
+            tags.append("mgrseq:non-newer-timestamp")
+        same = a["kind"] == b["kind"] and a.get("excess") == b.get("excess") and len(a["calls"]) == len(b["calls"]) and all(
+            x[0] == y[0] and (x[1] == y[1] or (x[1] != x[1] and y[1] != y[1])) for x, y in zip(a["calls"], b["calls"]))
+        bad_calls = [c for c in a["calls"] if c[0] in nan_ids or c[1] != c[1]]
+        if bad_calls:
+            # an inverter whose latest message has no (NaN) inclusion bounds has no bounds a set-point could respect: its
+            # battery set must be left out; and no set-point may be NaN
+            ctx.violation(f"{prop}.manager-nan-data", where,
+                          {"note": "a battery set with NaN inverter inclusion bounds is commanded / a NaN set-point is sent",
+                           "nan_inverters": sorted(i["id"] for g in nan_groups for i in g["invs"] if i.get("nan_incl")),
+                           "calls": [[c[0], str(c[1])] for c in bad_calls]}, regime=None)
+        elif not same:
             ctx.violation(f"{prop}.manager-latest-data", where,
                           {"note": "the long-lived manager does not command what a fresh manager commands for the latest data",
                            "new_messages": nm, "long_lived": a, "fresh": b}, regime=None)
-        elif "excess" in a and consistent(step) and admitted(step) and set(i for i, _ in a["calls"]) == {
-                i["id"] for g in step["groups"] for i in g["invs"]}:
-            flags = flags_canonical(regimes(step))
-            obs = {"dist": {str(i): rat(v) for i, v in a["calls"]}, "rem": rat(a["excess"])}
-            for clause, observed in oracle(step, obs, prop):
-                ctx.violation(f"{prop}.{clause}", where, {"manager_commands": obs, **observed}, regime=regime_of(clause, flags))
+        else:
+            sub = {**step, "groups": [g for g in step["groups"] if g not in nan_groups]}
+            if "excess" in a and sub["groups"] and consistent(sub) and admitted(sub) and set(i for i, _ in a["calls"]) == {
+                    i["id"] for g in sub["groups"] for i in g["invs"]}:
+                flags = flags_canonical(regimes(sub))
+                obs = {"dist": {str(i): rat(v) for i, v in a["calls"]}, "rem": rat(a["excess"])}
+                for clause, observed in oracle(sub, obs, prop):
+                    ctx.violation(f"{prop}.{clause}", where, {"manager_commands": obs, **observed}, regime=regime_of(clause, flags))
         ctx.case(where if k else step, tags=tags, nontrivial=k > 0 and mode != "none")
 
 
@@ -722,7 +760,9 @@ def oracle(case: dict, out: dict, prop: str) -> list[tuple[str, Any]]:
     sgn = 1 if p > 0 else -1
     if prop == "C01":
         total = sum(dist.values())
-        if abs(total + rem - p) > tol:
+        # conservation is exact outside the known regimes up to the code's own 1e-9 tolerances (and float rounding, ~1e-15
+        # relative): 1e-7 relative leaves two orders of magnitude and still sees a few watts lost from a MW-scale request
+        if abs(total + rem - p) > tol / 10:
             bad.append(("sum", {"setpoints": rat(total), "remainder": rat(rem), "request": rat(p),
                                 "created": rat(total + rem - p)}))
         wrong = {k: rat(v) for k, v in dist.items() if v * sgn < -tol}
@@ -1087,6 +1127,47 @@ def gen_float_residue(rng: random.Random) -> dict:
     return case
 
 
+def gen_large_scale(rng: random.Random) -> dict:
+    """MW/GW-scale pools with W-scale overshoots (exact rationals): 2–6 pairs with inclusion bounds of 1–50 MW (or GW), the
+    request = the pool's inclusion bound, or the power at which ONE group's proportional share reaches its inclusion
+    bound, plus a few watts.  The overshoot is far below 1e-6 of the request and far above float noise: it must be moved
+    to another group or reported as remainder."""
+    unit = Fraction(rng.choice([10**6, 10**6, 10**6, 10**5, 10**9]))
+    n = rng.randint(2, 6)
+    ids = list(range(1, 60))
+    rng.shuffle(ids)
+    supply = rng.random() < 0.4
+    soc_lo, soc_hi = Fraction(rng.choice([0, 10, 20])), Fraction(rng.choice([80, 90, 100]))
+    groups = []
+    for _ in range(n):
+        iu = unit * rng.choice([1, 1, 2, 3, 5, 10, 50])
+        ni = rng.choice([1, 1, 1, 2])
+        eu = Fraction(0) if rng.random() < 0.7 else unit / rng.choice([10, 100])
+        soc = Fraction(rng.randint(int(soc_lo) * 2 + 1, int(soc_hi) * 2 - 1), 2)
+        bats = [{"id": ids.pop(), "cap": rat(Fraction(rng.choice([1, 2, 5, 10])) * 1000), "soc": rat(soc), "soc_lo": rat(soc_lo),
+                 "soc_hi": rat(soc_hi), "il": rat(-iu), "el": rat(-eu), "eu": rat(eu), "iu": rat(iu)}]
+        invs = [{"id": ids.pop(), "il": rat(-iu / ni), "el": "0", "eu": "0", "iu": rat(iu / ni)} for _ in range(ni)]
+        groups.append({"bats": bats, "invs": invs})
+    case = {"power": "1", "exp": rng.choice([1, 1, 1, 2]), "failed": None, "groups": groups}
+    sides = [group_side(g, supply) for g in groups]
+    total_ub = sum(s["ub"] for s in sides)
+    delta = Fraction(rng.choice([1, 4, 10, 10, Fraction(1, 2), 100, 3]))
+    tot = sum(s["agg"]["cap"] * s["avail"] ** int(case["exp"]) for s in sides)
+    cands = [total_ub + delta, total_ub + delta]
+    if tot > 0:
+        ws = [(s["ub"] / (s["agg"]["cap"] * s["avail"] ** int(case["exp"]) / tot), s) for s in sides if s["avail"] > 0]
+        if ws:
+            p1, s1 = min(ws, key=lambda x: x[0])  # the first group to reach its inclusion bound
+            w1 = s1["agg"]["cap"] * s1["avail"] ** int(case["exp"]) / tot
+            cands.append(p1 + delta / w1)
+    p = rng.choice(cands)
+    lo, hi = advertised_excl(case)
+    p = max(p, -lo if supply else hi)
+    case["power"] = rat(-p if supply else p)
+    finish_case(case)
+    return case
+
+
 def gen_malformed(rng: random.Random) -> dict:
     """Inputs outside the quantifier's domain: only model = code is required."""
     case = gen_case(rng)
@@ -1370,7 +1451,7 @@ def run_property(ctx: Any, prop: str) -> None:
         rng = ctx.subrng("case", i)
         r = rng.random()
         case = gen_malformed(rng) if r < 0.12 else (gen_isclose(rng) if r < 0.14 else (
-            gen_float_residue(rng) if r < 0.19 else gen_case(rng)))
+            gen_float_residue(rng) if r < 0.19 else (gen_large_scale(rng) if r < 0.24 else gen_case(rng))))
         probe = prop == "C01" and i % 8 == 0
         if probe and rng.random() < 0.5:
             prepare_failed(case, rng)
@@ -1389,7 +1470,7 @@ def run_property(ctx: Any, prop: str) -> None:
     if prop == "C02":
         # several requests through ONE real BatteryManager, the component data changing in between
         for i in range(ctx.budget(quick=60, thorough=800)):
-            process_manager_sequence(ctx, prop, gen_sequence(ctx.subrng("manager-sequence", i)))
+            process_manager_sequence(ctx, prop, gen_manager_sequence(ctx.subrng("manager-sequence", i)))
     if ctx.tier == "thorough":
         for c in exhaustive_small():
             finish_case(c)
